@@ -88,7 +88,9 @@ def get_members_value(context):
         if keyword.arg == "members":
             arg = keyword.value
             if isinstance(arg, ast.Call):
-                return {"Function": arg.func.id}
+                func = arg.func
+                name = func.id if isinstance(func, ast.Name) else None
+                return {"Function": name or getattr(func, "attr", "")}
             else:
                 value = arg.id if isinstance(arg, ast.Name) else arg
                 return {"Other": value}
